@@ -1510,7 +1510,7 @@ class sptensor:
                 else np.zeros(self.nnz, dtype=int)
             )
             tnt = sparse.coo_matrix(
-                (self.vals.transpose()[0], (cols, self.subs[:, n])),
+                (self.vals.transpose()[0].astype(float), (cols, self.subs[:, n])),
                 shape=(ncols, self.shape[n]),
             )
         else:
